@@ -47,6 +47,15 @@ def build(kind, seed):
         t = np.linspace(0.0, 3.0, 1500)
         spec["megacomplex"]["m1"] = {"type": "damped-oscillation", "labels": ["o1", "o2"], "frequencies": ["f1", "f2"], "rates": ["k1", "k2"]}
         pl += [["f1", 120.0], ["f2", 310.0]]
+    elif kind == "spectral_axis_scale":
+        # full model: decay along time x spectral shapes along a SCALED (not inverted) spectral axis
+        t = np.linspace(0.0, 30.0, 300)
+        spec["megacomplex"]["m1"] = {"type": "decay-parallel", "compartments": ["s1", "s2"], "rates": ["k1", "k2"]}
+        spec["megacomplex"]["sp"] = {"type": "spectral", "shape": {"s1": "sh1", "s2": "sh2"}}
+        spec["shape"] = {"sh1": {"type": "gaussian", "amplitude": "a1", "location": "l1", "width": "w1"},
+                         "sh2": {"type": "skewed-gaussian", "amplitude": "a2", "location": "l2", "width": "w2", "skewness": "sk"}}
+        spec["dataset"]["d1"] = {"megacomplex": ["m1"], "global_megacomplex": ["sp"], "spectral_axis_scale": 1.01}
+        pl += [["a1", 3.0, {"vary": False}], ["l1", 480.0], ["w1", 60.0], ["a2", 2.0, {"vary": False}], ["l2", 620.0], ["w2", 50.0], ["sk", 0.2]]
     elif kind == "multi_group":
         # several dataset groups: the objective is the concatenation of the group penalties in a fixed order
         t = np.linspace(0.0, 30.0, 150)
